@@ -295,7 +295,8 @@ Pick(S) == RandomElement(S)
 Chance(k, n) == Pick(1..n) <= k
 
 GIntVar(u) == Pick({"i1", "i2"})
-GIntLit(u) == ILit(Pick({0, 1, 2, 3, 5, 7, 8, 63, 64, -1, -2, -7, 100, 1000}))
+\* now and then a literal beyond 2^53 / at the ends of int64 (values a float64 detour would change)
+GIntLit(u) == IF Chance(1, 20) THEN BigLit(Pick(BigVals)) ELSE ILit(Pick({0, 1, 2, 3, 5, 7, 8, 63, 64, -1, -2, -7, 100, 1000}))
 GShift(u)  == ILit(Pick(0..64))
 GIntExp(u) == LET r == Pick(1..10) IN
               IF r <= 5 THEN GIntLit(u) ELSE IF r <= 9 THEN Id(GIntVar(u)) ELSE Neg(Id(GIntVar(u)))
